@@ -90,9 +90,14 @@ R8(N) == [Base EXCEPT !.states = <<S1, S1, S1, S1>>, !.controls = <<Sym1>>,
 \* R3v: R3 with the two states declared as one 2x1 vector state
 R3v(N) == [R3(N) EXCEPT !.xblocks = <<<<2, 1>>>>]
 
+\* RA:  x' = pc x + pcp t + u      (both kinds of per-interval parameter in the dynamics)
+RA(N) == [Base EXCEPT !.states = <<S1>>, !.controls = <<Sym1>>,
+                      !.params = <<[kind |-> "c", val |-> PVals(1, N)], [kind |-> "cp", val |-> PVals(3, N + 1)]>>,
+                      !.rhs = <<Plus3(Times(P(1), X(1)), Times(P(2), Tm), U(1))>>]
+
 RhsIds == {"R1", "R2", "R3", "R4", "R5", "R7"}
 Rhs(id, N) == CASE id = "R1" -> R1(N) [] id = "R2" -> R2(N) [] id = "R3" -> R3(N)
-                [] id = "R4" -> R4(N) [] id = "R5" -> R5(N) [] id = "R7" -> R7(N) [] id = "R6" -> R6(N) [] id = "R8" -> R8(N) [] id = "R3v" -> R3v(N)
+                [] id = "R4" -> R4(N) [] id = "R5" -> R5(N) [] id = "R7" -> R7(N) [] id = "R6" -> R6(N) [] id = "R8" -> R8(N) [] id = "R3v" -> R3v(N) [] id = "RA" -> RA(N)
 
 (***************************************************************************)
 (* Path / boundary constraints (all well-formed for every rhs above:       *)
